@@ -116,6 +116,13 @@ Definition inc_iv (iv : list Z) : result (list Z) :=
   let c := be_decode (skipn 4 iv) + 1 in
   if c <? 2 ^ 64 then Ok (firstn 4 iv ++ be_encode 8 c) else Raise (LibExc 2).
 
+(* the nonce of the k-th AEAD packet of a key epoch that started with IV iv *)
+Fixpoint iv_after (k : nat) (iv : list Z) : result (list Z) :=
+  match k with
+  | O => Ok iv
+  | Datatypes.S k' => bind (inc_iv iv) (iv_after k')
+  end.
+
 (* packet[1 : e] with Python's negative-index rule *)
 Definition py_slice1 (l : list Z) (e : Z) : list Z :=
   let n := zlen l in
@@ -405,6 +412,8 @@ Arguments Aead {P} k iv.
 Arguments OMsg {P} payload rnd.
 Arguments OKey {P} ms mr bs msz sdctr zs zr.
 Arguments OReset {P}.
+Arguments TRekey {P} s.
+Arguments TOther {P} x.
 
 (* ---- laws of the primitives (premises of the theorems; DESIGN.md section 5) ---- *)
 (* `cinv bs se sd`: sd is the decryption context matching encryption context se of a cipher
